@@ -21,7 +21,7 @@ import (
 	"github.com/flamego/flamego/verifharness/internal/rt"
 )
 
-const rule = "case = a valid route set in which a random subset of routes gets Headers(...) 1..3 times with 0..2 pairs each (the last call is the truth), routes registered through Get / Route / Routes(\"GET,POST\") / Routes(\"get, Post\") / Routes(path, \"GET\", \"POST\") / Any / Get while AutoHead is on (GET and HEAD), incl. fully static and optional routes; requests built from route instances (both forms, every method) with random header sets (absent, empty, matching, non-matching, 4..9 KB long with a verdict that hinges on the last byte, other case of the name in the constraint, repeated fields whose values agree on the verdict under every reading, pairs of requests that cut one comma-separated list differently between two constrained headers, requests without a header map); optionally Headers() calls after all requests have been served once, and everything again. " +
+const rule = "case = a valid route set in which a random subset of routes gets Headers(...) 1..3 times with 0..2 pairs each (the last call is the truth), routes registered through Get / Route / Routes(\"GET,POST\") / Routes(\"get, Post\") / Routes(path, \"GET\", \"POST\") / Any / Get while AutoHead is on (GET and HEAD), incl. fully static and optional routes; requests built from route instances (both forms, every method) with random header sets (absent, empty, matching, non-matching, 4..9 KB long with a verdict that hinges on the last byte, the spelling of an expression as the value, other case of the name in the constraint, repeated fields whose values agree on the verdict under every reading, pairs of requests that cut one comma-separated list differently between two constrained headers, requests without a header map); optionally Headers() calls after all requests have been served once, and everything again. " +
 	"Oracle: reference matcher with the gate 'every constrained header has a non-empty value matched by its expression' applied to both forms and all methods of the route; the handler that ran (or not-found) must be the reference winner. " +
 	"non-trivial = a case with a request whose path is admitted by a constrained route whose constraints fail (so another route or not-found must take it), or that reaches a constrained route through its short form, a non-first method or a fully static path; distinct by case text"
 
@@ -278,7 +278,9 @@ func show(c Case) string {
 
 var hdrNames = []string{"X-Api", "x-api", "Accept", "User-Agent", "X-B"}
 var hdrExprs = []string{"", "^v1$", "Caddy", "[0-9]+", "^(a|b)$", "^[0-9a-f]+$", "(?i)^caddy", "a$", "^[a-z0-9/ ]*$"}
-var hdrVals = []string{"v1", "v12", "Caddy/2", "x", "7", "a", "", "ab", "CADDY", "deadbeef", "7a", "V1", "A", "B", "caddy"}
+var hdrVals = []string{"v1", "v12", "Caddy/2", "x", "7", "a", "", "ab", "CADDY", "deadbeef", "7a", "V1", "A", "B", "caddy",
+	// the spelling of an expression is a value like any other
+	"^v1$", "[0-9]+", "^(a|b)$", "a$", "x^[0-9a-f]+$"}
 
 // hdrValue draws a header value: mostly from the pool, sometimes a very long
 // one (4..9 KB, beyond any buffer a matcher might use) whose verdict may hinge
